@@ -252,30 +252,42 @@ def path_facts(body, sym, facts, bb, depth=3):
     """Fact sets, one per way of entering block bb: where several edges meet (an `A | B =>` arm, a shared exit), no single
     edge dominates, but each incoming edge carries its own facts.  A condition holds at bb if it holds in every set."""
     live = body.live_blocks()
-    preds = [p for p in body.preds().get(bb, []) if p in live]
-    # the join may lie above a straight-line run into bb (drops, calls, gotos): whatever holds there, holds at bb
+    base = facts_at(body, sym, facts, bb)
+
+    def lpreds(x):
+        return [p for p in body.preds().get(x, []) if p in live]
+
+    def one_armed(p):
+        t = body.term(p)
+        return t["k"] != "switch" or bool(t.get("threaded_switch"))
+    # the join may lie above a straight-line run into bb (drops, calls, gotos, tests decided by construction): whatever holds
+    # at the join holds at bb as well
+    join = bb
+    preds = lpreds(join)
     hops = 0
-    extra = []
-    while len(preds) == 1 and hops < 40 and body.term(preds[0])["k"] != "switch":
+    while len(preds) == 1 and hops < 60 and one_armed(preds[0]):
         hops += 1
-        bb0 = preds[0]
-        preds = [p for p in body.preds().get(bb0, []) if p in live]
-        if len(preds) > 1:
-            bb = bb0
+        join = preds[0]
+        preds = lpreds(join)
     if len(preds) <= 1 or depth <= 0:
-        return [facts_at(body, sym, facts, bb)]
+        return [base]
     out = []
     for p in preds:
         t = body.term(p)
+        edge = []
         if t["k"] == "switch":
-            vals = {v for v, tb in t["targets"] if tb == bb}
-            if t["otherwise"] == bb:
+            vals = {v for v, tb in t["targets"] if tb == join}
+            if t["otherwise"] == join:
                 vals.add(None)
             edge = _edge_fact_dicts(body, sym, facts, p, vals)
-            for fs in path_facts(body, sym, facts, p, depth - 1):
-                out.append(list(fs) + edge)
-        else:
-            out.extend(path_facts(body, sym, facts, p, depth - 1))
+        for fs in path_facts(body, sym, facts, p, depth - 1):
+            alt = list(base)
+            have = {f["text"] for f in alt}
+            for f in list(fs) + edge:
+                if f["text"] not in have:
+                    have.add(f["text"])
+                    alt.append(f)
+            out.append(alt)
     return out
 
 
@@ -391,7 +403,11 @@ def infeasible(fs):
         v = f["val"]
         if not isinstance(v, (str, bool, int)):
             continue
-        k = render(f["expr"])
+        k = f["expr"]       # structural: two calls of one function are two values (the call site is part of the expression)
+        try:
+            hash(k)
+        except TypeError:
+            k = render(f["expr"])
         if k in seen and seen[k] != v:
             return True
         seen.setdefault(k, v)
@@ -421,12 +437,80 @@ def field_writes(facts, adt, field, include_borrows=True, body_filter=None):
                     continue
                 if _ends_with_field(s["place"], adt, field):
                     out.append({"body": b, "bb": i, "idx": j, "kind": "store", "rv": s["rv"], "span": s.get("span")})
-                if include_borrows and "ref" in s["rv"] and s["rv"]["mut"] and _ends_with_field(s["rv"]["ref"], adt, field):
-                    out.append({"body": b, "bb": i, "idx": j, "kind": "mut-borrow", "rv": s["rv"], "span": s.get("span"), "dest": s["place"]})
+                if "ref" in s["rv"] and s["rv"]["mut"] and _ends_with_field(s["rv"]["ref"], adt, field):
+                    # `match &mut x.f { slot @ None => *slot = v, .. }`: a borrow that is only looked at and stored through is the
+                    # stores made through it
+                    via = _stores_through(b, s["place"]["l"]) if not s["place"]["p"] else None
+                    if via is not None:
+                        for (vi, vj, vs) in via:
+                            if vi not in live or any(o_["body"] is b and o_["bb"] == vi and o_["idx"] == vj for o_ in out):
+                                continue      # (the copy of a drop-and-replace store on the unwind path is not a second store)
+                            out.append({"body": b, "bb": vi, "idx": vj, "kind": "store", "rv": vs["rv"], "span": vs.get("span"), "via_ref": s["place"]["l"]})
+                    elif include_borrows:
+                        out.append({"body": b, "bb": i, "idx": j, "kind": "mut-borrow", "rv": s["rv"], "span": s.get("span"), "dest": s["place"]})
             t = bl["term"]
             if t["k"] == "call" and _ends_with_field(t["dest"], adt, field):
                 out.append({"body": b, "bb": i, "idx": len(bl["stmts"]), "kind": "call-dest", "term": t, "span": t.get("span")})
     return out
+
+
+def _stores_through(body, r, depth=0):
+    """If reference local r (one definition) is used only to read the referent (discriminant, fields, copies) and to store whole
+    values through it (`*r = v`), return those store statements [(bb, idx, stmt)]; None when it escapes (passed to a call,
+    reborrowed into something else, ..)."""
+    if depth > 3 or len([d for d in body.defs_of(r)]) != 1:
+        return None
+    stores = []
+    aliases = []
+    for i, bl in enumerate(body.blocks):
+        for j, st in enumerate(bl["stmts"]):
+            if st["k"] != "assign":
+                continue
+            pl, rv = st["place"], st["rv"]
+            if pl["l"] == r and pl["p"]:
+                if pl["p"] == ["deref"]:
+                    stores.append((i, j, st))
+                    continue
+                return None        # partial store through the reference: not a whole-value store
+            for key in ("use", "cast"):
+                o = rv.get(key)
+                if isinstance(o, dict):
+                    q = o.get("move") or o.get("copy")
+                    if q is not None and q["l"] == r:
+                        if not q["p"] and not pl["p"]:
+                            aliases.append(pl["l"])      # r2 = move r
+                        elif q["p"] and q["p"][0] == "deref":
+                            pass                          # a read of the referent
+                        else:
+                            return None
+            if "ref" in rv and rv["ref"]["l"] == r:
+                if rv.get("mut") or rv["ref"]["p"][:1] != ["deref"]:
+                    # `&mut *r` reborrow: follow it like an alias
+                    if rv["ref"]["p"] == ["deref"] and not pl["p"]:
+                        aliases.append(pl["l"])
+                    else:
+                        return None
+            if "discr" in rv and rv["discr"]["l"] == r:
+                continue
+            for o in (rv.get("ops") or []) + [rv.get("a"), rv.get("b")]:
+                if isinstance(o, dict):
+                    q = o.get("move") or o.get("copy")
+                    if q is not None and q["l"] == r and not (q["p"] and q["p"][0] == "deref"):
+                        return None
+        t = bl["term"]
+        if t["k"] == "call":
+            for a in t["args"]:
+                q = a.get("move") or a.get("copy")
+                if q is not None and q["l"] == r and not (q["p"] and q["p"][0] == "deref"):
+                    return None
+            if t["dest"]["l"] == r and t["dest"]["p"]:
+                return None
+    for a in aliases:
+        sub = _stores_through(body, a, depth + 1)
+        if sub is None:
+            return None
+        stores.extend(sub)
+    return stores
 
 
 def struct_constructions(facts, adt):
